@@ -27,17 +27,20 @@ func init() {
 		Rule: "probe-instrumented programs (templates: straight-line, dotimes incl. empty body, tail loop, non-tail recursion, re-expanding macro, map/foldl callbacks, nested load-string, with/without ignore-errors and handler-bind; plus generated programs) are run unlimited under a counting context to obtain N and a step-stamped trace, then under WithMaxSteps(n) for every n in 1..N+2 (all n when N<=400, else n<=64, n>=N-8 and a stride) and under a scripted context cancelled at step k for every such k; " +
 			"definition context x call context: a function (defun, global lambda, labels, closure made by an earlier request or returned to the host, closure stored in a map, callback of map/foldl/apply, macro body; 20 body shapes) is defined in a fresh runtime under each of {no context, context.Background(), a live cancelable context, a context cancelled once the phase has returned, a distant deadline, a root WithContext} through each loading entry point, then run as a request through each *Context entry point under a DIFFERENT context (scripted, or a real WithCancel / child-of-cancelled-parent / WithDeadline context cancelled by the step hook) cancelled at sampled steps k: the trace is the uncancelled request cut at k-1, ends in context-cancelled at step k; " +
 			"host-started calls: once per worker every Go-implemented function, special operator and macro of the registry is called with argument vectors from a small pool (probe-carrying callback, list, vector, int, type symbol, source text, quoted form, map; forms for operators and macros) and kept when it succeeds and the probe fired (the builtin re-entered the evaluator); calls whose value is a function (compose, flip, curry-function, expr, lambda) give derived callees; each kept call is made twice in one runtime through FunCall / FunCallContext / SpecialOpCall / MacroCall+Eval of the expansion / EvalSExpr, unlimited (N and trace stamped by the lifetime counter), under stratified budgets n and cancellation indices k with the oracles above, plus: the per-evaluation counter starts once per top-level entry; " +
+			"limits reconfigured on a live runtime: two histories per case, each on one runtime for one limit kind (nesting, physical height, tail iterations, macro expansions, step budget, context): 5-10 phases that set the limit through a documented route (With* at InitializeUserEnv, the Config applied later, the exported field assigned before InitializeUserEnv or after 0-3 evaluations; WithMaxSteps; root WithContext / per-call context) to a value chosen relative to the need of the phase's program as measured by the hooks on a twin at the defaults (1-4 below, exact, 1-3 above, far above, 0, negative where documented; needs between the old and the new maximum), then run it: hooks compare height / nesting with the maximum read back at that moment, need above the maximum gives the limit's error (uncaught / handler-bind / ignore-errors) and a usable runtime, need within it the twin's outcome, budget and context the twin's stamped trace cut at n (k-1); " +
 			"physical-height, eval-nesting, tail-iteration and macro-expansion limits are enumerated 1..40 (1..20 for macros) against recursion depths around each bound with hook assertions on every push and eval entry. distinct_nontrivial counts distinct (program template, limit kind, limit value bucket, outcome) combinations",
 		Assumptions: []string{
 			"the unlimited run is made under a never-cancelled context so that steps are counted (the step counter is only live when a context or a budget is configured)",
 			"when an error-swallowing form intercepts the limit error the final outcome is not compared, only that nothing further happened (no probe beyond the budget)",
 			"an uncancelled request does the same (probe trace, outcome) whatever context its functions were defined under; a request whose own context is alive does not end in context-cancelled because a context of an earlier, finished phase is cancelled",
+			"besides the With* values given to InitializeUserEnv, applying a With* Config to the root environment later and assigning the exported, doc-commented fields Runtime.MaxEvalNesting / MaxMacroExpansionDepth and Stack.MaxHeightPhysical / MaxTailIterations between top-level evaluations are documented ways of configuring a limit; the value in force for a top-level evaluation is the one configured when it starts (0 and negative values mean what the field / Config comments say; other negative values are not judged)",
 			"tail-iteration and macro-expansion bounds are checked as 'succeeds at or below the bound, fails beyond bound+1': the exact off-by-one of each counter is not part of the statement",
 		},
 		Cases:       func(tier string) int { return pick(tier, 420, 9000) },
 		Run:         c04Run,
 		Init:        c04Init,
 		MinDistinct: func(tier string) int { return pick(tier, 150, 300) },
+		Driver:      c04Driver,
 	})
 }
 
@@ -58,6 +61,13 @@ type c04Mon struct {
 	// ones counts how often the per-evaluation counter read 1 (c04_hostcall.go: once
 	// per top-level entry)
 	ones int64
+	// live: at every push and every eval entry the maximum configured AT THAT MOMENT is
+	// read back through the public field / accessor and must be respected
+	// (c04_reconf.go: limits reconfigured on a live runtime)
+	live       bool
+	liveBad    string
+	liveWhat   string
+	liveChecks int64
 }
 
 var c04Cur *c04Mon
@@ -87,6 +97,13 @@ func c04Init(w *fw.W) {
 				if h > m.maxHeight {
 					m.maxHeight = h
 				}
+				if m.live {
+					m.liveChecks++
+					if lim := s.MaxHeightPhysical; lim > 0 && h > lim && m.liveBad == "" {
+						m.liveWhat = "physical"
+						m.liveBad = fmt.Sprintf("the call stack holds %d frames while Stack.MaxHeightPhysical reads %d", h, lim)
+					}
+				}
 			}
 		},
 		EvalEnter: func(r *lisp.Runtime, nesting int) {
@@ -94,6 +111,13 @@ func c04Init(w *fw.W) {
 				m.evals++
 				if nesting > m.maxNest {
 					m.maxNest = nesting
+				}
+				if m.live {
+					m.liveChecks++
+					if lim := r.MaxEvalNestingDepth(); lim > 0 && nesting > lim && m.liveBad == "" {
+						m.liveWhat = "nesting"
+						m.liveBad = fmt.Sprintf("evaluation proceeds at nesting %d while MaxEvalNestingDepth() reads %d (Runtime.MaxEvalNesting = %d)", nesting, lim, r.MaxEvalNesting)
+					}
 				}
 			}
 		},
@@ -227,6 +251,7 @@ func c04Run(w *fw.W, idx int) {
 		c04Refill(w, idx)
 		c04CrossCtx(w, idx)
 		c04HostCalls(w, idx)
+		c04Reconf(w, idx)
 	}
 }
 
@@ -558,6 +583,9 @@ func c04OtherLimits(w *fw.W, idx int) {
 			w.CoverKey(fmt.Sprintf("macro|lim=%d|%s", lim, t3.Value))
 		}
 	}
+	if !c04TailLimitDeepBodies(w, idx) {
+		return
+	}
 	// a pending sleep is interrupted by cancellation
 	ctx := &c04DoneCtx{scriptedCtx: newScriptedCtx(0)}
 	rr := rt.New(rt.Opts{})
@@ -748,4 +776,74 @@ func c04Refill(w *fw.W, idx int) {
 		w.Violation("total-steps-below-steps", "", p.src)
 	}
 	w.CoverKey(fmt.Sprintf("refill|%s|N=%d", p.name, N/4))
+}
+
+// c04TailLimitDeepBodies: the tail-iteration bound for loops whose body makes, before the
+// bound is due, non-tail recursions that go deeper from turn to turn - deeper than the
+// stack of this runtime has ever been, through 2^k-1, 2^k, 2^k+1 frames - so that the bound
+// is checked on a frame that was live while the stack grew past every size it had before
+// (the loops above stay below 64 frames).  The recursion sits in a non-final body form or
+// in the argument of the tail call; the loop starts at the top level or at the bottom of a
+// call chain.  A stream of its own ("tail-depth") keeps the draws of the cases above.
+func c04TailLimitDeepBodies(w *fw.W, idx int) bool {
+	r := w.RNG(idx, "tail-depth")
+	for k := 0; k < 6; k++ {
+		ds := c02DepthSchedule(r, "quick")
+		for i := range ds {
+			if ds[i] > 400 {
+				ds[i] = 400 - r.Intn(6)
+			}
+		}
+		deepTurns := 0 // the turns up to the deepest one
+		for i, d := range ds {
+			if d >= ds[deepTurns] {
+				deepTurns = i
+			}
+		}
+		lim := deepTurns + r.Range(2, 12)
+		n := lim + r.Range(-3, 5)
+		if n < 0 {
+			n = 0
+		}
+		var sb strings.Builder
+		sb.WriteString("(set 'c04-depths '(")
+		for _, d := range ds {
+			fmt.Fprintf(&sb, "%d ", d)
+		}
+		fmt.Fprintf(&sb, "))\n(defun depth-of (n) (let ([t (- %d n)]) (if (< t %d) (nth c04-depths t) 0)))\n", n, len(ds))
+		sb.WriteString("(defun deep (k) (if (<= k 0) 0 (+ 1 (deep (- k 1)))))\n")
+		where := []string{"body-form", "tail-call-argument"}[k%2]
+		name := "spin"
+		if k%3 == 2 {
+			name = "spin0"
+		}
+		if where == "body-form" {
+			fmt.Fprintf(&sb, "(defun %s (n) (deep (depth-of n)) (if (<= n 0) 'done (%s (- n 1))))\n", name, name)
+		} else {
+			fmt.Fprintf(&sb, "(defun %s (n) (if (<= n 0) 'done (%s (- n 1 (* 0 (deep (depth-of n)))))))\n", name, name)
+		}
+		if k%3 == 2 {
+			sb.WriteString("(defun start (k n) (if (<= k 0) (spin0 n) (identity (start (- k 1) n))))\n(defun spin (n) (start 40 n))\n")
+		}
+		fmt.Fprintf(&sb, "(handler-bind ((condition (lambda (c &rest a) 'caught))) (spin %d))\n", n)
+		src := sb.String()
+		rr := rt.New(rt.Opts{MaxTail: lim})
+		t := rr.Run("c04", src)
+		w.Eval(1)
+		class := "body-recursion-deeper-each-turn/" + where
+		switch {
+		case t.IsErr:
+			w.Violation("tail-limit-not-catchable:"+class, fmt.Sprintf("MaxTailIterations=%d n=%d: %s %s", lim, n, t.Cond, t.Msg), src)
+			return false
+		case n <= lim && t.Value != "'done":
+			w.Violation("tail-limit-premature:"+class, fmt.Sprintf("MaxTailIterations=%d: a loop of %d turns was refused (%s)", lim, n, t.Outcome()), src)
+			return false
+		case n > lim+1 && t.Value != "'caught":
+			w.Violation("tail-limit-not-enforced:"+class, fmt.Sprintf("MaxTailIterations=%d: a loop of %d turns whose body recursed %v levels deep in its first turns completed (%s)", lim, n, ds, t.Outcome()), src)
+			return false
+		}
+		w.Count("tail_limit_loops_with_deepening_bodies", 1)
+		w.CoverKey(fmt.Sprintf("tail-deep|%s|%d|%v|%s", where, lim, ds, t.Value))
+	}
+	return true
 }
